@@ -129,6 +129,38 @@ def generate(repo):
     out.append('Lemma gen_history_end_eq : forall m i ph c p, gen_history_end m i ph c p = history_end m i ph c p.\n'
                'Proof. intros m i ph c p. unfold gen_history_end, history_end. destruct m, i, ph; reflexivity. Qed.')
     out.append('Close Scope Q_scope.')
+    # ---- weekly frequency: the end date while today's bar is incomplete
+    wk = [s for s in f.body if isinstance(s, ast.If) and ast.unparse(s.test).startswith("frequency == '1w'")]
+    if len(wk) != 1 or [ast.unparse(x) for x in wk[0].body] != ['dt = env.data_proxy.get_previous_trading_date(env.trading_dt.date())'] or wk[0].orelse:
+        raise Unsupported('api history_bars: weekly end-date block not found or changed')
+    trw = Tr(names={"cmp:frequency == '1w'": 'true', 'include_now': 'include_now',
+                    'cmp:ExecutionContext.phase() in (EXECUTION_PHASE.BEFORE_TRADING, EXECUTION_PHASE.OPEN_AUCTION)': '(pre_open ph)',
+                    "cmp:env.config.base.frequency in ['1m', 'tick']": 'sys_minute',
+                    'cmp:ExecutionContext.phase() != EXECUTION_PHASE.AFTER_TRADING': '(negb (after_close ph))'})
+    out.append('Definition gen_weekly_history_end (sys_minute include_now : bool) (ph : hphase) (calendar_dt prev_trading_dt : Z) : Z :=\n'
+               '  if %s then prev_trading_dt else calendar_dt.' % trw.expr(wk[0].test, {}))
+    out.append('Lemma gen_weekly_history_end_eq : forall m i ph c p, gen_weekly_history_end m i ph c p = weekly_history_end m i ph c p.\n'
+               'Proof. intros m i ph c p. unfold gen_weekly_history_end, weekly_history_end. destruct m, i, ph; reflexivity. Qed.')
+    # the weekly block must come before the call and after the daily block (dt is what the call passes on)
+    # ---- BarObject.mavg / vwap: the end of the averaged window
+    btree = ast.parse(open(os.path.join(repo, 'rqalpha/model/bar.py')).read())
+    ends = []
+    for nm in ('mavg', 'vwap'):
+        fb = find_func(btree, 'BarObject', nm)
+        ifs = [s for s in fb.body if isinstance(s, ast.If) and [ast.unparse(x) for x in s.body] == ['dt = env.data_proxy.get_previous_trading_date(env.calendar_dt.date())']]
+        pre = [ast.unparse(s) for s in fb.body if isinstance(s, ast.Assign) and ast.unparse(s.targets[0]) == 'dt']
+        if len(ifs) != 1 or pre != ['dt = env.calendar_dt']:
+            raise Unsupported('BarObject.%s: end-date block not found or changed' % nm)
+        trm = Tr(names={"cmp:env.config.base.frequency == '1m'": 'sys_minute', "cmp:frequency == '1d'": 'daily',
+                        'cmp:ExecutionContext.phase() == EXECUTION_PHASE.BEFORE_TRADING': '(match ph with HBeforeTrading => true | _ => false end)',
+                        'cmp:ExecutionContext.phase() == EXECUTION_PHASE.OPEN_AUCTION': '(match ph with HOpenAuction => true | _ => false end)'})
+        ends.append(trm.expr(ifs[0].test, {}))
+    if ends[0] != ends[1]:
+        raise Unsupported('BarObject.mavg and vwap end their windows differently')
+    out.append('Definition gen_mavg_end (sys_minute daily : bool) (ph : hphase) (calendar_dt prev_trading_dt : Z) : Z :=\n'
+               '  if %s then prev_trading_dt else calendar_dt.' % ends[0])
+    out.append('Lemma gen_mavg_end_eq : forall m d ph c p, gen_mavg_end m d ph c p = mavg_end m d ph c p.\n'
+               'Proof. intros m d ph c p. unfold gen_mavg_end, mavg_end. destruct m, d, ph; reflexivity. Qed.')
     # the call passes adjust_orig=env.trading_dt and dt / include_now on
     call = f.body[-1]
     if not (isinstance(call, ast.Return) and 'adjust_orig=env.trading_dt' in ast.unparse(call) and 'include_now=include_now' in ast.unparse(call)):
@@ -146,4 +178,4 @@ def generate(repo):
 
     for name, stmt, (g, m) in lemmas:
         out.append('Lemma %s : %s.\n%s' % (name, stmt, EQ_PROOF % (g, m)))
-    return '\n'.join(out) + '\n', [l[0] for l in lemmas] + ['gen_history_end_eq']
+    return '\n'.join(out) + '\n', [l[0] for l in lemmas] + ['gen_history_end_eq', 'gen_weekly_history_end_eq', 'gen_mavg_end_eq']
